@@ -199,7 +199,9 @@ func SignHashed(rand io.Reader, priv, e []byte) (r, s []byte, err error) {
 			return
 		}
 
-		if utils.ConstantTimeCmp(K[:], nBytes[:], 32) >= 0 {
+		// the nonce must lie in [1, n-1]
+		var zeroK [32]byte
+		if utils.ConstantTimeCmp(K[:], nBytes[:], 32) >= 0 || utils.ConstantTimeCmp(K[:], zeroK[:], 32) == 0 {
 			continue
 		}
 
